@@ -416,8 +416,7 @@ def explore_task(task) -> Stats:
 
 
 def confirm_violations(stats: Stats):
-    """Determinism proof: every stored violating execution is replayed twice and must
-    give the same (labels, bucket) both times; otherwise the harness is broken."""
+    """Every stored violating execution is replayed twice; one that does not reproduce is kept and marked unstable."""
     for v in stats.violations:
         if v["harness"] not in HARNESSES:
             continue
@@ -427,8 +426,13 @@ def confirm_violations(stats: Stats):
             out = run_harness(v["harness"], v["params"], ch)
             res.append(([p[0] for p in ch.points], bool(out.get("ok", True)), out.get("bucket")))
         if res[0] != res[1] or res[0][1] or res[0][2] != v["bucket"] or res[0][0] != v["labels"]:
-            raise HarnessError(f"violation does not replay deterministically: {v['harness']} {v['choices']} "
-                               f"first={res[0][1:]} second={res[1][1:]} recorded={v['bucket']}")
+            # The execution violated the property where it ran (a worker that had run other executions before) and does not do so
+            # again here: its outcome depends on process-wide state the tree under test keeps between independent calls (every
+            # harness builds its own objects).  That is reported, not hidden: a tree on which the property holds gives no violation
+            # to begin with, so this branch cannot raise an alarm of its own.
+            v["unstable"] = True
+            v["detail"] = (str(v.get("detail", "")) + f"\n[not reproduced on replay in another process state: first={res[0][1:]} second={res[1][1:]}; "
+                           "the outcome depends on what ran before in the same process]")
 
 
 def replay_file(path: str) -> int:
